@@ -206,9 +206,10 @@ def rnd_vec(rng, n, shape=None):
             for i in range(n)]
 
 
-def gen_py7zr_like_header(rng, nfolders=None, with_partial=False):
+def gen_py7zr_like_header(rng, nfolders=None, with_partial=False, with_times=False):
     """a header of the kind py7zr's own sessions build (k folders of simple coders, sub-stream CRCs all
-    defined, names/mtime/attributes for every file)"""
+    defined, names/mtime/attributes for every file); with_times: entries read from a 7-Zip -mtc/-mta archive, i.e.
+    creation / access times on every entry, on some, present-but-None, or absent"""
     nfolders = rng.choice([0, 1, 1, 1, 2, 3]) if nfolders is None else nfolders
     folders, nums, sizes, dd, dg, files, packsizes = [], [], [], [], [], [], []
     for _ in range(nfolders):
@@ -253,7 +254,11 @@ def gen_py7zr_like_header(rng, nfolders=None, with_partial=False):
             mt = [[]]
         if with_partial and rng.random() < 0.4:
             at = [[]]
-        filetrees.append([e, [rnd_name(rng)], [], [], mt, at])
+        ct, lat = [], []
+        if with_times:
+            ct = rng.choice([[[rnd_size(rng)]], [[rnd_size(rng)]], [[]], []])
+            lat = rng.choice([[[rnd_size(rng)]], [[]], []])
+        filetrees.append([e, [rnd_name(rng)], ct, lat, mt, at])
     if nfolders == 0:
         st = []
     else:
